@@ -100,7 +100,7 @@ pub fn response_bytes(action: &BackendAction) -> (Vec<u8>, Vec<u8>) {
     }
 }
 
-fn serve_conn(backend: usize, conn: usize, stream: TcpStream, shared: Arc<Mutex<Shared>>) {
+pub fn serve_conn(backend: usize, conn: usize, stream: TcpStream, shared: Arc<Mutex<Shared>>) {
     let read_script = shared.lock().unwrap().read_script.clone();
     script::set_bufs(&stream, None, read_script.rcvbuf);
     let mut w = stream.try_clone().expect("clone");
